@@ -393,7 +393,7 @@ class CSVRecordIterator extends rbql.RBQLInputIterator {
         let decoded_string = null;
         if (this.decoder) {
             try {
-                decoded_string = this.decoder.decode(data_chunk);
+                decoded_string = this.decoder.decode(data_chunk, {stream: true}); // A multibyte character can be split between two chunks
             } catch (e) {
                 if (e instanceof TypeError) {
                     this.store_or_propagate_exception(new RbqlIOHandlingError(utf_decoding_error));
@@ -445,6 +445,13 @@ class CSVRecordIterator extends rbql.RBQLInputIterator {
 
     process_data_stream_end() {
         this.input_exhausted = true;
+        if (this.decoder) {
+            try {
+                this.partially_decoded_line += this.decoder.decode(); // Flush the decoder, this fails if the input ends in the middle of a multibyte character
+            } catch (e) {
+                this.store_or_propagate_exception(new RbqlIOHandlingError(utf_decoding_error));
+            }
+        }
         if (this.partially_decoded_line.length) {
             let last_line = this.partially_decoded_line;
             this.partially_decoded_line = '';
